@@ -1932,6 +1932,9 @@ func (mgr *Manager) restartConverterProcess(path string) error {
 	if err := converter.Reset(); err != nil {
 		return err
 	}
+	// the cached outputs are gone, tags with data filters might have matched on them
+	mgr.invalidateDataTags(mgr.allStreams)
+	mgr.startTaggingJobIfNeeded()
 
 	// run the converter on all streams that match the tags it is attached to again
 	for _, tag := range mgr.tags {
@@ -1998,6 +2001,9 @@ func (mgr *Manager) detachConverterFromTag(tag *tag, tagName string, converter *
 		if err := converter.Reset(); err != nil {
 			return err
 		}
+		// tags with data filters might have matched on them
+		mgr.invalidateDataTags(mgr.allStreams)
+		mgr.startTaggingJobIfNeeded()
 	}
 	return nil
 }
